@@ -95,6 +95,11 @@ type Stream struct {
 	// being decoded, summed across the HEADERS frame and its CONTINUATIONs.
 	headerListSize int
 
+	// blockFields counts the fields decoded so far in the header block that is
+	// being received, across the HEADERS frame and its CONTINUATIONs. A dynamic
+	// table size update is only legal while it is still zero.
+	blockFields int
+
 	// original type
 	origType        FrameType
 	startedAt       time.Time
@@ -141,6 +146,7 @@ func NewStream(id uint32, win int32) *Stream {
 	strm.abandoned = false
 	strm.origType = 0
 	strm.headerListSize = 0
+	strm.blockFields = 0
 
 	return strm
 }
